@@ -11,9 +11,9 @@ const (
 	// META_LEASESET_MIN_SIZE is the absolute minimum size for a MetaLeaseSet structure.
 	// This assumes: Destination (387 bytes) + published (4 bytes) + expires (2 bytes) +
 	// flags (2 bytes) + options (2 bytes) + num_entries (1 byte) +
-	// 1 entry (41 bytes minimum) + signature (64 bytes EdDSA)
-	// = 387 + 4 + 2 + 2 + 2 + 1 + 41 + 64 = 505 bytes minimum
-	META_LEASESET_MIN_SIZE = 505
+	// no entries + the shortest signature (40 bytes DSA_SHA1)
+	// = 387 + 4 + 2 + 2 + 2 + 1 + 40 = 438 bytes minimum
+	META_LEASESET_MIN_SIZE = 438
 
 	// META_LEASESET_HEADER_MIN_SIZE is the minimum size of MetaLeaseSet header without offline signature.
 	// Destination (387 bytes) + published (4 bytes) + expires (2 bytes) + flags (2 bytes)
